@@ -44,6 +44,7 @@ __all__ = (
     "colored",
     "pascal_case",
     "snake_case",
+    "int_literal",
     "write_stderr",
     "fatal",
 )
@@ -326,6 +327,16 @@ class Color(Enum):
 def colored(text: str, color: Color) -> str:
     """Color given text."""
     return "\033[3%dm%s\033[0m" % (color.value, text)
+
+
+def int_literal(value: int) -> str:
+    """Formats given integer as a literal, in decimal whenever possible.
+    The interpreter refuses to convert integers with too many digits to decimal
+    strings, the hexadecimal form has no such limit."""
+    try:
+        return "{0}".format(value)
+    except ValueError:
+        return hex(value)
 
 
 def keep_case(word: str) -> str:
